@@ -126,6 +126,33 @@ def gen(tier, rng):
             for ps in (5, 6, 8, 3, 0):
                 for full in (True, False):
                     cases.append("pt %s %d %s" % (ctx, s["id"], hx(enc_pt(rng, s, {"ps": ps, "flag": True, "full": full, "all_flags": True}))))
+    # time codes as broadcasters write them: SPS time bases in actual use x counting types 0..6 x frame numbers 0..3 / top x
+    # seconds 0 / 59 x minutes 0, 1, 9, 10, 59 (drop-frame rules live at exactly these) - the values are data, not syntax
+    for nu, ts in g.BROADCAST_TIMING[:14]:
+        s = g.gen_sps(rng, sps_id=1, small=True, vui_shape={"nal": rng.random() < 0.5, "vcl": False, "cnt": 0, "cnt2": 0, "ps": True})
+        s["vui"]["timing"] = (nu, ts, True)
+        ctx = "S" + hx(g.sps_nal(s, rng))
+        v = s["vui"]
+        h = v["nal_hrd"] or v["vcl_hrd"]
+        for ct in range(7):
+            for nf in (0, 1, 2, 3, 29):
+                for sec, mi in ((0, 1), (0, 10), (0, 7), (59, 9), (0, 0), (1, 1)):
+                    w = BitWriter()
+                    if h is not None:
+                        w.u(h["crdl"] + 1, 3).u(h["dodl"] + 1, 5)
+                    w.u(4, 0)                      # pic_struct 0: one clock timestamp
+                    full = (ct + nf + mi) % 2 == 0
+                    w.b(1).u(2, 0).b(0).u(5, ct).b(full).b(0).b(0).u(8, nf)
+                    if full:
+                        w.u(6, sec).u(6, mi).u(5, 3)
+                    else:
+                        w.b(1).u(6, sec).b(1).u(6, mi).b(1).u(5, 3)
+                    tol = (h or {"tol": 24})["tol"]
+                    if tol > 0:
+                        w.u(tol, 0)
+                    if len(w.bits) % 8:
+                        w.trailing()
+                    cases.append("pt %s %d %s" % (ctx, s["id"], hx(w.bytes())))
     # small / round values in wide fields (byte patterns 00 00 0x inside the payload)
     for _ in range(200 if tier == "quick" else 4000):
         s = g.gen_sps(rng, sps_id=1, small=True, vui_shape={"nal": True, "vcl": rng.random() < 0.3, "cnt": rng.choice([0, 1, 3]), "cnt2": 0, "ps": rng.random() < 0.7})
